@@ -174,13 +174,24 @@ func InRange(x, lo, hi *big.Int) bool { return lo.Cmp(x) <= 0 && x.Cmp(hi) < 0 }
 // the replay file are served (big-endian, sized to the request).
 func Reader(name string) io.Reader { return &replayReader{name: name} }
 
+// ReaderWith is Reader with a coin predicate: every value drawn (k-th draw, as
+// an integer) is assumed to satisfy pred — the explicit, counted exclusion of
+// negligible-probability events of honest randomness.
+func ReaderWith(name string, pred func(k int, x *big.Int) bool) io.Reader {
+	return &replayReader{name: name, pred: pred}
+}
+
 type replayReader struct {
 	name string
 	n    int
+	pred func(k int, x *big.Int) bool
 }
 
 func (r *replayReader) Read(p []byte) (int, error) {
 	v := lookup(r.name + "#" + strconv.Itoa(r.n))
+	if r.pred != nil && !r.pred(r.n, v) {
+		panic(AssumeViolated{"coin-predicate:" + r.name})
+	}
 	r.n++
 	bs := v.Bytes()
 	for i := range p {
@@ -196,3 +207,11 @@ func (r *replayReader) Read(p []byte) (int, error) {
 // Summarise selects a checked summary for a callee in this harness (symbolic
 // mode only; natively the real code runs).
 func Summarise(fn string) {}
+
+// NoSummaries makes the executor run the module's sampling helpers from their
+// real code instead of their checked summaries.
+func NoSummaries() {}
+
+// UnwindAssume(k) states the unwinding assumption: loops exit within k
+// iterations (paths needing more are assumed away and counted).
+func UnwindAssume(k int) {}
